@@ -68,6 +68,12 @@ def marshalRel (r : ResView) (prepath : GoString) (rel : Rel) (wantData : Bool) 
       | _ => .panic
     else .ok (.obj [(K.links, links)], none)
 
+/-- The JSON value of an attribute in a resource object: `encoding/json`'s encoding,
+except that a nil non-pointer byte slice is the empty string (never null). -/
+def encodeAttr : GoVal → Json
+  | .val _ (.bs none) => .str []
+  | v => encodeVal v
+
 /-- resource.go `MarshalResource`. `fields` is the sparse fieldset of the resource's
 type, `relData` the document's map type ↦ relationships whose data is wanted.
 Returns the JSON object and the resource as it is afterwards (to-many lists sorted). -/
@@ -75,7 +81,7 @@ def marshalResource (r : ResView) (prepath : GoString) (fields : List GoString)
     (relData : GoMap (List GoString)) (rmeta : Meta := []) : Res (Json × ResView) :=
   -- attributes: a Go map keyed by attr.Name; a later attribute with the same Name overwrites
   let attrs : List (GoString × Json) :=
-    r.attrs.foldl (fun m p => if fields.contains p.2.name then GoMap.set m p.2.name (encodeVal (r.get p.2.name)) else m) []
+    r.attrs.foldl (fun m p => if fields.contains p.2.name then GoMap.set m p.2.name (encodeAttr (r.get p.2.name)) else m) []
   let want := (relData.get? r.typeName).getD []
   let relsRes : Res (List (GoString × Json) × ResView) :=
     r.rels.foldl (fun acc p =>
@@ -182,7 +188,7 @@ def Document.include (d : Document) (r : ResView) : Document :=
   let inPrimary : Bool :=
     match d.data with
     | .res p => resKey p = key
-    | .col tn ms => tn = r.typeName && ms.any (fun m => resKey m = key)
+    | .col tn ms => (tn = [] || tn = r.typeName) && ms.any (fun m => resKey m = key)
     | _ => false
   if inPrimary then d
   else if d.included.any (fun x => resKey x = key) then d
